@@ -43,9 +43,9 @@ def accept(c, t, metric):
     return (c >= t) if metric == 'r2' else (c < t)
 
 
-def oracle(case, rec):
+def oracle(case, rec, pts=None):
     L = lib.lib()
-    p = lib.pts_of(case)
+    p = lib.pts_of(case) if pts is None else pts
     n = len(p)
     metric, t = case['metric'], case['t']
     M = S.metric_of(metric)
@@ -128,4 +128,24 @@ def oracle(case, rec):
     rec.tag('depth:%s' % ('0' if stats['splits'] == 0 else '1-3' if stats['splits'] <= 3 else '4+'))
 
 
-SUBS = [Sub('rdp', oracle, strategy=cases, budget={'quick': 9600, 'thorough': 160000})]
+@st.composite
+def huge_cases(draw, tier):
+    """Long curves (block-wise / cached fast paths only show above ~16k points)."""
+    from .c01 import smooth_curve  # noqa: F401
+    n = draw(st.sampled_from([17000, 20000, 33000, 40000] if tier == 'quick' else [17000, 20000, 33000, 40000, 70000]))
+    metric = draw(st.sampled_from(S.METRICS))
+    t = draw(st.sampled_from([0.3, 0.5, 0.7, 0.9] if metric != 'r2' else [0.5, 0.8, 0.9]))
+    return {'family': 'huge', 'n': n, 'curve': draw(st.sampled_from(['hyperbola', 'exp', 'sqrt'])),
+            'a': draw(st.sampled_from([3.0, 20.0, 100.0])), 'ripple': draw(st.integers(0, 2)),
+            'metric': metric, 'distance': draw(st.sampled_from(S.DISTANCES)), 't': t}
+
+
+def oracle_huge(case, rec):
+    from .c01 import smooth_curve
+    case = dict(case)
+    case['pts'] = smooth_curve(case['n'], case['curve'], case['a'], case['ripple'])
+    oracle(case, rec, pts=case['pts'])
+
+
+SUBS = [Sub('rdp', oracle, strategy=cases, budget={'quick': 9600, 'thorough': 160000}),
+        Sub('huge', oracle_huge, strategy=huge_cases, budget={'quick': 48, 'thorough': 480})]
